@@ -19,6 +19,7 @@ import (
 	"net/http/httptest"
 	"net/url"
 	"sort"
+	"strconv"
 	"strings"
 
 	"github.com/ccbrown/api-fu/jsonapi"
@@ -54,11 +55,24 @@ func (h hout) sexp() sexp.Node {
 	case hNil:
 		return sexp.Sym("nil")
 	}
-	return sexp.T("err", sexp.Str(h.Status))
+	return errSexp(h.Status)
 }
 
+// an application error; a status written with a trailing "!" stands for that status on an error object
+// whose Meta does not marshal
 func mkErr(status string) *types.Error {
-	return &types.Error{Status: status, Title: "application error"}
+	if strings.HasSuffix(status, "!") {
+		return &types.Error{Status: strings.TrimSuffix(status, "!"), Title: "application error",
+			Links: types.Links{"about": "https://example.com/e"}, Meta: map[string]any{"live": make(chan int)}}
+	}
+	return &types.Error{Status: status, Title: "application error", Meta: map[string]any{"n": 1}}
+}
+
+func errSexp(status string) sexp.Node {
+	if strings.HasSuffix(status, "!") {
+		return sexp.T("err", sexp.Str(strings.TrimSuffix(status, "!")), sexp.Sym("unser"))
+	}
+	return sexp.T("err", sexp.Str(status))
 }
 
 func (h hout) value() (*res, *types.Error) {
@@ -89,7 +103,7 @@ func (a aout) sexp() sexp.Node {
 	case aUnser:
 		return sexp.Sym("unser")
 	}
-	return sexp.T("err", sexp.Str(a.Status))
+	return errSexp(a.Status)
 }
 
 type attrSpec struct {
@@ -116,7 +130,7 @@ func (o oneOut) sexp() sexp.Node {
 	case oId:
 		return sexp.T("id", sexp.Str(o.Id.Type), sexp.Str(o.Id.Id))
 	}
-	return sexp.T("err", sexp.Str(o.Status))
+	return errSexp(o.Status)
 }
 
 const (
@@ -144,7 +158,7 @@ func (m manyOut) sexp() sexp.Node {
 	case mIds:
 		return sexp.T("ids", ridList(m.Ids)...)
 	case mErr:
-		return sexp.T("err", sexp.Str(m.Status))
+		return errSexp(m.Status)
 	}
 	return sexp.Sym("echo")
 }
@@ -205,7 +219,7 @@ func linkPreset(name string) types.Links {
 
 func (o customOut) sexp() sexp.Node {
 	if o.Err {
-		return sexp.T("err", sexp.Str(o.Status))
+		return errSexp(o.Status)
 	}
 	var lk []sexp.Node
 	preset := linkPreset(o.Links)
@@ -243,8 +257,61 @@ func (o customOut) sexp() sexp.Node {
 // the resolver itself; pool holds the shared Links maps of the schema it belongs to
 type customResolver struct {
 	spec *customSpec
-	pool map[string]types.Links
+	pool *mapPool
 	rec  *recorder
+}
+
+// the maps the resolvers of one schema own, with the content they were made with
+type mapPool struct {
+	links     map[string]types.Links
+	linksSnap map[string]types.Links
+	metas     map[int]map[string]any
+}
+
+func newMapPool() *mapPool {
+	return &mapPool{links: map[string]types.Links{}, linksSnap: map[string]types.Links{}, metas: map[int]map[string]any{}}
+}
+
+func metaPreset(kind int) map[string]any {
+	switch kind {
+	case 1:
+		return map[string]any{}
+	case 2:
+		return map[string]any{"count": 1}
+	case 3:
+		return map[string]any{"count": 1, "live": make(chan int)}
+	}
+	return nil
+}
+
+// every resolver-owned map still has the content it was made with
+func (p *mapPool) unchanged() bool {
+	for name, m := range p.links {
+		snap := p.linksSnap[name]
+		if len(m) != len(snap) {
+			return false
+		}
+		for k, v := range snap {
+			if got, ok := m[k]; !ok || got != v {
+				return false
+			}
+		}
+	}
+	for kind, m := range p.metas {
+		want := metaPreset(kind)
+		if len(m) != len(want) {
+			return false
+		}
+		for k := range want {
+			if _, ok := m[k]; !ok {
+				return false
+			}
+		}
+		if c, ok := m["count"]; ok && c != 1 {
+			return false
+		}
+	}
+	return true
 }
 
 func (c customResolver) relationship(o customOut, includeData bool, members []types.ResourceId) (types.Relationship, *types.Error) {
@@ -253,10 +320,11 @@ func (c customResolver) relationship(o customOut, includeData bool, members []ty
 	}
 	var rel types.Relationship
 	if o.Shared {
-		if _, ok := c.pool[o.Links]; !ok {
-			c.pool[o.Links] = linkPreset(o.Links)
+		if _, ok := c.pool.links[o.Links]; !ok {
+			c.pool.links[o.Links] = linkPreset(o.Links)
+			c.pool.linksSnap[o.Links] = linkPreset(o.Links)
 		}
-		rel.Links = c.pool[o.Links]
+		rel.Links = c.pool.links[o.Links]
 	} else {
 		rel.Links = linkPreset(o.Links)
 	}
@@ -276,13 +344,13 @@ func (c customResolver) relationship(o customOut, includeData bool, members []ty
 			rel.Data = &data
 		}
 	}
-	switch o.Meta {
-	case 1:
-		rel.Meta = map[string]any{}
-	case 2:
-		rel.Meta = map[string]any{"count": 1}
-	case 3:
-		rel.Meta = map[string]any{"count": 1, "live": make(chan int)}
+	if o.Shared && o.Meta != 0 {
+		if _, ok := c.pool.metas[o.Meta]; !ok {
+			c.pool.metas[o.Meta] = metaPreset(o.Meta)
+		}
+		rel.Meta = c.pool.metas[o.Meta]
+	} else {
+		rel.Meta = metaPreset(o.Meta)
 	}
 	return rel, nil
 }
@@ -404,7 +472,7 @@ func (t typeSpec) sexp() sexp.Node {
 		var es []sexp.Node
 		d := func(h hout) sexp.Node {
 			if h.Kind == hErr {
-				return sexp.T("err", sexp.Str(h.Status))
+				return errSexp(h.Status)
 			}
 			return sexp.Sym("ok")
 		}
@@ -492,9 +560,9 @@ func manyResult(o manyOut, members []types.ResourceId, emptyAsNil bool) ([]types
 	return append([]types.ResourceId(nil), o.Ids...), nil
 }
 
-func build(specs []typeSpec, rec *recorder) *jsonapi.Schema {
+func build(specs []typeSpec, rec *recorder) (*jsonapi.Schema, *mapPool) {
 	def := &jsonapi.SchemaDefinition{ResourceTypes: map[string]jsonapi.AnyResourceType{}}
-	pool := map[string]types.Links{} // the shared Links maps of the custom resolvers of this schema
+	pool := newMapPool() // the shared Links / Meta maps of the custom resolvers of this schema
 	for _, ts := range specs {
 		ts := ts
 		rt := jsonapi.ResourceType[*res]{}
@@ -579,7 +647,7 @@ func build(specs []typeSpec, rec *recorder) *jsonapi.Schema {
 	if err != nil {
 		panic("harness: generated schema rejected: " + err.Error())
 	}
-	return s
+	return s, pool
 }
 
 // ------------------------------------------------------------------------------------------------
@@ -718,11 +786,51 @@ func (bd body) sexp() sexp.Node {
 // ------------------------------------------------------------------------------------------------
 
 type request struct {
-	Method string
-	Path   string
-	Accept []string
-	Query  string // raw query
-	Body   body
+	Method      string
+	Path        string // r.URL.Path, unless Target is given
+	Target      string // a raw request-target ("/things/a%2Fb?x=1"), parsed like net/http's server does
+	Accept      []string
+	Query       string // raw query
+	Body        body
+	ContentType string // the handler does not look at it
+}
+
+// the number tokens of a body text (maximal runs of number characters outside strings) and whether
+// strconv.ParseFloat finds them inside float64: the table the model's reader asks
+func numTable(text string) []sexp.Node {
+	var out []sexp.Node
+	seen := map[string]bool{}
+	isNum := func(c byte) bool {
+		return (c >= '0' && c <= '9') || c == '-' || c == '+' || c == '.' || c == 'e' || c == 'E'
+	}
+	for i := 0; i < len(text); {
+		switch {
+		case text[i] == '"':
+			i++
+			for i < len(text) && text[i] != '"' {
+				if text[i] == '\\' {
+					i++
+				}
+				i++
+			}
+			i++
+		case isNum(text[i]):
+			j := i
+			for j < len(text) && isNum(text[j]) {
+				j++
+			}
+			tok := text[i:j]
+			if !seen[tok] {
+				seen[tok] = true
+				_, err := strconv.ParseFloat(tok, 64)
+				out = append(out, sexp.L(sexp.Str(tok), sexp.Bool(err == nil)))
+			}
+			i = j
+		default:
+			i++
+		}
+	}
+	return out
 }
 
 const mediaType = "application/vnd.api+json"
@@ -766,7 +874,7 @@ func pmtTable(lines []string) sexp.Node {
 	return sexp.L(out...)
 }
 
-func (rq request) sexp(u *url.URL) sexp.Node {
+func (rq request) sexp(u *url.URL, text string) sexp.Node {
 	var acc, q []sexp.Node
 	for _, a := range rq.Accept {
 		acc = append(acc, sexp.Str(a))
@@ -780,7 +888,7 @@ func (rq request) sexp(u *url.URL) sexp.Node {
 		q = append(q, sexp.Str(k))
 	}
 	return sexp.T("req", sexp.T("method", sexp.Str(rq.Method)), sexp.T("path", sexp.Str(u.Path)),
-		sexp.T("accept", acc...), sexp.T("query", q...), sexp.T("body", rq.Body.sexp()))
+		sexp.T("accept", acc...), sexp.T("query", q...), sexp.T("nums", numTable(text)...), sexp.T("body", sexp.T("raw", sexp.Str(text))))
 }
 
 // ------------------------------------------------------------------------------------------------
@@ -990,14 +1098,24 @@ func observeBody(b []byte) (node sexp.Node) {
 // ------------------------------------------------------------------------------------------------
 
 // one request against the API value; the recorder is emptied first
-func serve(r *rng.R, api jsonapi.API, rec *recorder, rq request) (reqNode, pmtNode, obs sexp.Node) {
+func serve(r *rng.R, api jsonapi.API, pool *mapPool, rec *recorder, rq request) (reqNode, pmtNode, obs sexp.Node) {
 	rec.calls = nil
 	text := rq.Body.text(r)
 	hr := httptest.NewRequest("GET", "/", strings.NewReader(text))
 	hr.Method = rq.Method
 	hr.URL = &url.URL{Path: rq.Path, RawQuery: rq.Query}
+	if rq.Target != "" {
+		u, err := url.ParseRequestURI(rq.Target) // what net/http's server does with the request line
+		if err != nil {
+			panic("harness: request-target does not parse: " + rq.Target)
+		}
+		hr.URL = u
+	}
 	for _, a := range rq.Accept {
 		hr.Header.Add("Accept", a)
+	}
+	if rq.ContentType != "" {
+		hr.Header.Set("Content-Type", rq.ContentType)
 	}
 	w := httptest.NewRecorder()
 	panicked := func() (p bool) {
@@ -1013,9 +1131,16 @@ func serve(r *rng.R, api jsonapi.API, rec *recorder, rq request) (reqNode, pmtNo
 		obs = sexp.T("obs", sexp.Sym("panic"))
 	} else {
 		obs = sexp.T("obs", sexp.T("status", sexp.Int(w.Code)), sexp.T("ctype", sexp.Str(w.Header().Get("Content-Type"))),
-			sexp.T("body", observeBody(w.Body.Bytes())), sexp.T("calls", rec.calls...))
+			sexp.T("body", observeBody(w.Body.Bytes())), sexp.T("calls", rec.calls...), sexp.T("maps", mapsNode(pool)))
 	}
-	return rq.sexp(hr.URL), pmtTable(rq.Accept), obs
+	return rq.sexp(hr.URL, text), pmtTable(rq.Accept), obs
+}
+
+func mapsNode(pool *mapPool) sexp.Node {
+	if pool.unchanged() {
+		return sexp.Sym("unchanged")
+	}
+	return sexp.Sym("written")
 }
 
 func schemaSexp(specs []typeSpec) sexp.Node {
@@ -1028,8 +1153,9 @@ func schemaSexp(specs []typeSpec) sexp.Node {
 
 func runCase(r *rng.R, specs []typeSpec, rq request) sexp.Node {
 	rec := &recorder{}
-	api := jsonapi.API{Schema: build(specs, rec)}
-	reqNode, pmtNode, obs := serve(r, api, rec, rq)
+	schema, pool := build(specs, rec)
+	api := jsonapi.API{Schema: schema}
+	reqNode, pmtNode, obs := serve(r, api, pool, rec, rq)
 	return sexp.T("case", schemaSexp(specs), sexp.T("pmt", pmtNode.List...), sexp.T("request", reqNode), sexp.T("observed", obs))
 }
 
@@ -1037,10 +1163,11 @@ func runCase(r *rng.R, specs []typeSpec, rq request) sexp.Node {
 // resolvers with their shared Links maps)
 func runHistory(r *rng.R, specs []typeSpec, rqs []request) sexp.Node {
 	rec := &recorder{}
-	api := jsonapi.API{Schema: build(specs, rec)}
+	schema, pool := build(specs, rec)
+	api := jsonapi.API{Schema: schema}
 	var steps []sexp.Node
 	for _, rq := range rqs {
-		reqNode, pmtNode, obs := serve(r, api, rec, rq)
+		reqNode, pmtNode, obs := serve(r, api, pool, rec, rq)
 		steps = append(steps, sexp.T("step", sexp.T("pmt", pmtNode.List...), sexp.T("request", reqNode), sexp.T("observed", obs)))
 	}
 	return sexp.T("case", schemaSexp(specs), sexp.T("steps", steps...))
@@ -1109,6 +1236,7 @@ func idTable() *table {
 		entry{"e+451", hout{Kind: hErr, Status: "+451"}},
 		entry{"e100", hout{Kind: hErr, Status: "100"}},
 		entry{"e999", hout{Kind: hErr, Status: "999"}},
+		entry{"emeta", hout{Kind: hErr, Status: "403!"}},
 	)
 	return t
 }
@@ -1234,7 +1362,7 @@ var okAccept = []string{mediaType}
 var paths = []string{
 	"", "/", "things", "//things/1",
 	"/things", "/others", "/unknown", "/things/",
-	"/things/1", "/things/v1", "/things/v2", "/things/v3", "/things/v5", "/things/v9", "/things/nil", "/things/e404", "/things/e0", "/things/ebad", "/things/e1000", "/things/e+451", "/things/e100", "/things/e999",
+	"/things/1", "/things/v1", "/things/v2", "/things/v3", "/things/v5", "/things/v9", "/things/nil", "/things/e404", "/things/e0", "/things/ebad", "/things/e1000", "/things/e+451", "/things/e100", "/things/e999", "/things/emeta", "/things/emeta/one", "/things/emeta/relationships/many",
 	"/others/1", "/others/v2", "/unknown/1", "/things/relationships",
 	"/things/1/one", "/things/1/many", "/things/1/nope", "/things/1/relationships", "/things/1/", "/things/nil/one", "/things/e404/many", "/things/ebad/one",
 	"/things/v4/one", "/things/v4/many", "/things/v5/one", "/things/v5/many", "/things/v6/one", "/things/v6/many", "/things/v7/one", "/things/v7/many",
@@ -1368,7 +1496,7 @@ func defaultRequest() request {
 var typeNames = []string{"things", "others", "x-y_z", "T9"}
 var idNames = []string{"1", "2", "v1", "v2", "v3", "nil", "e404", "e0", "ebad", "", "relationships", "a b", "é"}
 var relNames = []string{"one", "many", "r3", "relationships", "nope"}
-var statuses = []string{"", "400", "403", "404", "409", "422", "500", "503", "200", "100", "999", "1000", "99", "0", "abc", "+404", "-404", "4 4", "0404", "40x"}
+var statuses = []string{"403!", "!", "abc!", "", "400", "403", "404", "409", "422", "500", "503", "200", "100", "999", "1000", "99", "0", "abc", "+404", "-404", "4 4", "0404", "40x"}
 
 // healthy: the generator currently prefers outcomes that let a request succeed (set per case)
 var healthy bool
